@@ -466,7 +466,7 @@ func getOwnerByID(ctx, cid) (r)
 
 func estimationKey(epoch, cid, key) (r)
   pure
-  ensures [C20] r == ekey(epoch, cid, key) && !isnil(r)
+  ensures [C20] r == ekey(epoch, cid, key) && !isnil(r) && len(ripemd160(key)) >= 10
 
 // asks Netmap for the map of the previous epoch (diff 1) and looks for the key at bytes 2..35 of each node
 func isStorageNode(ctx, key) (r)
@@ -481,13 +481,56 @@ func isStorageNode(ctx, key) (r)
     invariant forall j Int {snapshot[j]} :: 0 <= j && j < i ==> snapshot[j].Info[2:35] != key
     invariant forall j Int {xcalls("snapshot")[j]} :: 0 <= j && j < xcalls("snapshot").len ==> xcalls("snapshot")[j] == entry(xcalls("snapshot"))[j]
 
+// the epoch an estimation key cnr<i2b(epoch)><cid: 32><ripemd(key)[:10]> was stored for
+pure epochOf(k Bytes) Int = b2i(k[3 : len(k) - 42])
+pure estk(cid Bytes, pub Bytes) Bytes = "est" ++ cid ++ ripemd160(pub)
+pure elist(s Store, cid Bytes, pub Bytes) L_Int = deser_L_Int(s.get(estk(cid, pub)))
+
+// bookkeeping of one node's estimations of one container: removes exactly that node's entries for epochs older than
+// CleanupDelta = 3 (unless the call only updates), records the epoch in the node's list, touches nothing else
 func updateEstimations(ctx, epoch, cid, pub, isUpdate)
-  trusted
+  requires len(cid) == 32
   ensures notifs == old(notifs)
-  ensures forall k Bytes {store.opt(k)} :: !prefix("est", k) && !prefix("cnr", k) ==> store.opt(k) == old(store).opt(k)
+  ensures [C20] forall k Bytes {store.opt(k)} :: !prefix("cnr", k) && k != estk(cid, pub) ==> store.opt(k) == old(store).opt(k)
+  // only deletions, only of entries older than the delta
+  ensures [C20] forall k Bytes {store.opt(k)} :: prefix("cnr", k) && store.opt(k) != old(store).opt(k) ==> !store.has(k) && !isUpdate && epoch - epochOf(k) > 3
+  // every listed entry of this node older than the delta is gone
+  ensures [C20] !isUpdate && old(store).has(estk(cid, pub)) ==> forall q Int {elist(old(store), cid, pub)[q]} :: 0 <= q && q < len(elist(old(store), cid, pub)) && epoch - elist(old(store), cid, pub)[q] > 3
+        ==> !store.has(ekey(elist(old(store), cid, pub)[q], cid, pub))
+  loop 0
+    invariant notifs == old(notifs) && epochs == elist(old(store), cid, pub) && h == ripemd160(pub)
+    invariant forall k Bytes {store.opt(k)} :: !prefix("cnr", k) ==> store.opt(k) == old(store).opt(k)
+    invariant forall k Bytes {store.opt(k)} :: prefix("cnr", k) && store.opt(k) != old(store).opt(k) ==> !store.has(k) && !isUpdate && epoch - epochOf(k) > 3
+    invariant !isUpdate ==> forall q Int {epochs[q]} :: 0 <= q && q < $i && epoch - epochs[q] > 3 ==> !store.has(ekey(epochs[q], cid, pub))
+
+// the tick removes exactly the estimations stored for epochs older than TotalCleanupDelta = 4, whatever node or container
+func cleanupContainers(ctx, epoch)
+  ensures notifs == old(notifs)
+  ensures [C20] forall k Bytes {store.opt(k)} :: !prefix("cnr", k) ==> store.opt(k) == old(store).opt(k)
+  ensures [C20] forall k Bytes {store.opt(k)} :: prefix("cnr", k) && epoch - epochOf(k) > 4 ==> !store.has(k)
+  ensures [C20] forall k Bytes {store.opt(k)} :: prefix("cnr", k) && !(epoch - epochOf(k) > 4) ==> store.opt(k) == old(store).opt(k)
+  loop 0
+    invariant notifs == old(notifs)
+    invariant forall k Bytes {store.opt(k)} :: !prefix("cnr", k) ==> store.opt(k) == old(store).opt(k)
+    invariant forall j Int {$it.key(j)} :: 0 <= j && j < $it.pos && epoch - epochOf($it.key(j)) > 4 ==> !store.has($it.key(j))
+    invariant forall k Bytes {store.opt(k)} :: prefix("cnr", k) && !(epoch - epochOf(k) > 4) ==> store.opt(k) == old(store).opt(k)
+    invariant forall k Bytes {store.opt(k)} :: prefix("cnr", k) && old(store).has(k) && $it.idx(k) >= $it.pos ==> store.opt(k) == old(store).opt(k)
+    invariant forall k Bytes {store.opt(k)} :: store.has(k) ==> store.opt(k) == old(store).opt(k)
+
+func NewEpoch(epochNum)
+  ensures [C20] W(alphabet()) && notifs == old(notifs)
+  ensures [C20] forall k Bytes {store.opt(k)} :: !prefix("cnr", k) ==> store.opt(k) == old(store).opt(k)
+  ensures [C20] forall k Bytes {store.opt(k)} :: prefix("cnr", k) && epochNum - epochOf(k) > 4 ==> !store.has(k)
+  ensures [C20] forall k Bytes {store.opt(k)} :: prefix("cnr", k) && !(epochNum - epochOf(k) > 4) ==> store.opt(k) == old(store).opt(k)
 
 func PutContainerSize(epoch, cid, usedSize, pubKey)
+  requires [Pre] len(cid) == 32
   ensures [C20] live(old(store), cid) && W(pubKey)
+  // what is returned for (epoch, container, node) is what was put
+  ensures [C20] store.has(ekey(epoch, cid, pubKey)) && deser_Estimation(store.get(ekey(epoch, cid, pubKey))) == Estimation{pubKey, usedSize}
+  // besides this entry and the node's bookkeeping list only entries older than the delta disappear
+  ensures [C20] forall k Bytes {store.opt(k)} :: prefix("cnr", k) && k != ekey(epoch, cid, pubKey) && store.opt(k) != old(store).opt(k) ==> !store.has(k) && epoch - epochOf(k) > 3
+  ensures [C20] forall k Bytes {store.opt(k)} :: !prefix("cnr", k) && k != estk(cid, pubKey) ==> store.opt(k) == old(store).opt(k)
   ensures [C20] xcalls("snapshot").len == old(xcalls("snapshot")).len + 1
   ensures [C20] old(store).has("netmapScriptHash") ==> xcalls("snapshot")[old(xcalls("snapshot")).len] == ev_call_snapshot(old(store).get("netmapScriptHash"), "snapshot", 1)
   ensures [C20] exists i Int :: 0 <= i && i < len(snap(old(xcalls("snapshot")).len)) && snap(old(xcalls("snapshot")).len)[i].Info[2:35] == pubKey
